@@ -41,12 +41,17 @@ func main() {
 		os.Exit(2)
 	}
 	bin := filepath.Join(tgen.Scratch(), "childbin")
+	if os.Getenv("VERIF_CHILD_RACE") == "1" {
+		bin += "-race"
+	}
 	var extra []string
 	if rw, ok := m.Files["REWRITE"]; ok {
 		// overlay-instrumented build: rewrite the listed packages of /repo onto vsched primitives
 		ov := filepath.Join(tgen.Scratch(), "overlay.json")
 		args := []string{"-repo", tgen.Repo(), "-verif", tgen.VerifDir(), "-out", filepath.Join(tgen.Scratch(), "rewritten"), "-overlay", ov}
-		args = append(args, strings.Fields(rw)...)
+		if os.Getenv("VERIF_CHILD_RACE") != "1" {
+			args = append(args, strings.Fields(rw)...)
+		} // race pass: only the virtual packages, the code under test stays as it is
 		c := exec.Command(filepath.Join(tgen.Scratch(), "vrewrite"), args...)
 		c.Env = append(os.Environ(), "GOFLAGS=-mod=mod", "GOPROXY=off", "GOSUMDB=off", "GOTOOLCHAIN=local")
 		if out, err := c.CombinedOutput(); err != nil {
